@@ -72,3 +72,12 @@ let () =
       if iserr <> "1" then Viol (Printf.sprintf "a compressed message cut after %s bytes (source reporting io.ErrUnexpectedEOF) was read without error (%s bytes delivered as if complete)" k n)
       else Pass true
     | _ -> Diff "malformed line")
+
+let () =
+  (* C16D: the response is cut by a timeout-type error of the transport while the dial context is still alive *)
+  register "C16D" (fun i o -> match i, o with
+    | [kind; k], [iserr; cls] ->
+      if cls = "hang" || cls = "panic" then Viol ("Dial over a transport that fails inside the response: " ^ cls)
+      else if iserr <> "1" then Viol (Printf.sprintf "Dial reported success although the transport failed (timeout-type error) after %s bytes of the response (context: %s, still alive)" k kind)
+      else Pass true
+    | _ -> Diff "malformed line")
